@@ -75,11 +75,11 @@ func NewReader(r io.ReaderAt, opts ...Option) (*Reader, error) {
 		// offset. A prefix that merely decodes to {version: 2} (e.g. with another length
 		// byte) is not a CARv2; sequential readers would look for the header elsewhere.
 		pragma := make([]byte, PragmaSize)
-		if n, err := r.ReadAt(pragma, 0); n != PragmaSize || !bytes.Equal(pragma, Pragma) {
-			if err == nil || err == io.EOF {
-				err = errors.New("invalid CARv2 pragma")
-			}
+		if _, err := io.ReadFull(io.NewSectionReader(r, 0, PragmaSize), pragma); err != nil {
 			return nil, err
+		}
+		if !bytes.Equal(pragma, Pragma) {
+			return nil, errors.New("invalid CARv2 pragma")
 		}
 		if err := cr.readV2Header(); err != nil {
 			return nil, err
